@@ -38,6 +38,9 @@ const (
 	shReturnedWrong   = "returned-instance-wrong"
 	shRollbackFailed  = "rollback-failed" // rollback.R.MustExecute: a rollback step itself returned an error
 	shOtherPanic      = "other-panic"
+	// the entity was updated to a plugin that does not exist (Update does not dispense the
+	// plugin, Create does), so the rollback of a later failed delete cannot re-create it
+	shRollbackNoPlugin = "rollback-failed-plugin-not-found"
 )
 
 // shapesOf lists every last key segment a clause can produce (closed vocabulary).
@@ -66,7 +69,7 @@ func shapesOf(clause string) []string {
 	case clOutcome:
 		return []string{shInvalidAccepted, shValidRejected}
 	case clPanic:
-		return []string{shRollbackFailed, shOtherPanic}
+		return []string{shRollbackFailed, shRollbackNoPlugin, shOtherPanic}
 	}
 	return nil
 }
@@ -361,6 +364,9 @@ func (m *machine) execAPI(op Op) opResult {
 		shape := shOtherPanic
 		if strings.Contains(msg, "rollback failed") {
 			shape = shRollbackFailed
+			if strings.Contains(msg, "plugin") && strings.Contains(msg, "not found") {
+				shape = shRollbackNoPlugin
+			}
 		}
 		d := diffViews(pre, post, diffOpts{})
 		add(clPanic, shape, "the call panicked: %s; store changed: %q; memory versus pre-state: %s", msg, storeDiff(storePre, storePost), d)
